@@ -59,7 +59,7 @@ def main(tier_):
     stats = collections.Counter()
     samples = []
     # (a) lookups: reuse the C01 machinery; a backend that deviates from kernel truth deviates from the other backend
-    va, cova, _ = lookup_static.run("C04", tier_, "MC_C01_quick.cfg" if quick else "MC_C01_thorough.cfg", sample=2500 if quick else None)
+    va, cova, _ = lookup_static.run("C04", tier_, "MC_C01_quick.cfg" if quick else "MC_C01_thorough.cfg", sample=2000 if quick else None)
     for sig, desc, rep in va.violations:
         v.violation(dict(sig, family="lookups"), "C04/lookups: " + desc, rep)
     stats["lookup_cases"] = cova["traces_validated_against_impl"]
@@ -69,7 +69,7 @@ def main(tier_):
         v.violation(dict(sig, family="real-budgets"), "C04/lookups at the real link budget: " + desc, rep)
     stats["lookup_cases_real_budget"] = covb["traces_validated_against_impl"]
     # (b) mutations
-    data = rootops_static.run("C04", tier_, sample=1200 if quick else None)
+    data = rootops_static.run("C04", tier_, sample=1000 if quick else None)
     for ci, c in enumerate(data["cases"]):
         d = data["per"][ci]
         k, e = d["kernel"], d["emulated"]
@@ -183,9 +183,9 @@ def main(tier_):
              dict(id=9, p=7, n="sub", k="dir"), dict(id=10, p=2, n="nox", k="dir", mode=0o744), dict(id=11, p=10, n="f", k="file"), dict(id=12, p=2, n="nor", k="dir", mode=0o711),
              dict(id=13, p=12, n="f", k="file"), dict(id=14, p=2, n="own", k="dir", mode=0o700, uid=U), dict(id=15, p=14, n="f", k="file", uid=U), dict(id=16, p=2, n="secretf", k="file", mode=0o600),
              dict(id=17, p=2, n="l_priv", k="lnk", b="priv/f"), dict(id=18, p=2, n="l_pub", k="lnk", b="pub/f"), dict(id=19, p=2, n="l_thru", k="lnk", b="priv/sub/../../pub/f"),
-             dict(id=20, p=14, n="l_up", k="lnk", b="../priv/sub", uid=U), dict(id=21, p=2, n="st", k="dir", mode=0o1777), dict(id=22, p=21, n="theirs", k="file"), dict(id=23, p=21, n="mine", k="file", uid=U)]
+             dict(id=20, p=14, n="l_up", k="lnk", b="../priv/sub", uid=U), dict(id=24, p=2, n="l_noxs", k="lnk", b="nox/"), dict(id=21, p=2, n="st", k="dir", mode=0o1777), dict(id=22, p=21, n="theirs", k="file"), dict(id=23, p=21, n="mine", k="file", uid=U)]
     pcalls = []
-    for pth in ("pub/f", "priv/f", "priv", "priv/sub/..", "priv/../pub/f", "nox/f", "nox", "nox/..", "nor/f", "nor", "own/f", "secretf", "l_priv", "l_pub", "l_thru", "own/l_up", "own/l_up/../f", "priv/nx", "nox/nx", "st/theirs"):
+    for pth in ("pub/f", "priv/f", "priv", "priv/sub/..", "priv/../pub/f", "nox/f", "nox", "nox/..", "nor/f", "nor", "own/f", "secretf", "l_priv", "l_pub", "l_thru", "own/l_up", "own/l_up/../f", "priv/nx", "nox/nx", "st/theirs", "nox/", "nox//", "l_noxs", "l_noxs/", "nox/./", "nor/"):
         pcalls += [dict(op="resolve", path=pth, euid=U), dict(op="open", path=pth, oflags=O["RDONLY"] | O["NONBLOCK"], euid=U), dict(op="resolve", path=pth, nofollow=True, euid=U)]
     pcalls += [dict(op="open", path="nor", oflags=O["RDONLY"] | O["DIRECTORY"], euid=U), dict(op="open", path="secretf", oflags=O["PATH"], euid=U), dict(op="open", path="own/f", oflags=O["RDWR"], euid=U),
                dict(op="open", path="pub/f", oflags=O["WRONLY"], euid=U), dict(op="readlink", path="l_priv", euid=U), dict(op="readlink", path="own/l_up", euid=U),
@@ -203,7 +203,7 @@ def main(tier_):
         r = run_pv([dict(id="perm|" + bname, tree=ptree, feat=feat, trace=False, calls=pcalls)], jobs=1, tag="C04p")[0]
         if r.get("status") != "ok" or "results" not in r["out"][0]:
             raise ToolError("permission case failed: %s" % json.dumps(r)[:300])
-        pres[bname] = ([norm(x) for x in r["out"][0]["results"]], sorted((d["p"], d["n"], d["c"] if d["c"] < 24 else "NEW") for d in r["final"]["dents"]))
+        pres[bname] = ([norm(x) for x in r["out"][0]["results"]], sorted((d["p"], d["n"], d["c"] if d["c"] < 25 else "NEW") for d in r["final"]["dents"]))
     outc = collections.Counter()
     for ci, call in enumerate(pcalls):
         stats["perm_cases"] += 1
